@@ -152,6 +152,54 @@ func runC19(c *Ctx, r *Report, tier string) {
 		r.Check(c.fname(s.Fn) == "NewParser", "ERRS", c.fname(s.Fn), "store Parser.internalError", c.ipos(s.Store), "only NewParser records the declaration error", "internalError stored in "+c.fname(s.Fn))
 	}
 
+	// a malformed tag is rejected wherever a tag is read: every multiTag built during the scan is Parse()d —
+	// its error returned — before anything is read from it (Get alone scans lazily and swallows the error)
+	for fn := range scope {
+		for _, in := range c.instrs(fn, c.isCallTo("newMultiTag")) {
+			if in.Parent() != fn {
+				continue
+			}
+			mk := in.(*ssa.Call)
+			// the variable the tag lives in
+			var cell ssa.Value
+			if mk.Referrers() != nil {
+				for _, ref := range *mk.Referrers() {
+					if st, ok := ref.(*ssa.Store); ok && st.Val == ssa.Value(mk) {
+						cell, _ = c.cellRoot(st.Addr)
+					}
+				}
+			}
+			if cell == nil {
+				continue
+			}
+			onCell := func(x ssa.Instruction, names ...string) bool {
+				ci, ok := x.(ssa.CallInstruction)
+				if !ok || len(ci.Common().Args) == 0 {
+					return false
+				}
+				n := c.calleeName(ci.Common())
+				hit := false
+				for _, nm := range names {
+					if n == nm {
+						hit = true
+					}
+				}
+				if !hit {
+					return false
+				}
+				root, _ := c.cellRoot(ci.Common().Args[0])
+				return root == cell
+			}
+			isParse := func(x ssa.Instruction) bool { return onCell(x, "(*multiTag).Parse") }
+			for _, g := range c.instrs(fn, func(x ssa.Instruction) bool { return onCell(x, "(*multiTag).Get", "(*multiTag).GetMany") }) {
+				if g.Parent() != fn {
+					continue
+				}
+				_, ok := c.MustPass(fn, isInstr(g), isParse, nil, nil)
+				r.Check(ok, "ERRS", c.fname(fn), "tag parsed (and its error returned) before it is read", c.ipos(g), "MPT(Get; via Parse of the same tag)", "a tag is read without an explicit Parse: a malformed struct tag is silently read as empty instead of ErrTag")
+			}
+		}
+	}
 	// ---- KEYS
 	documented := c.documentedTagKeys(r)
 	read := map[string][]string{}
